@@ -259,7 +259,7 @@ func c16Scenarios(thorough bool) []c16Scenario {
 }
 
 func runC16(r *rt.Run) {
-	r.Rule = "scenarios = every pair of colliding calls (same receiver, receiver of one is the argument of the other, shared argument) out of the call alphabet (unary: JSON, Rect, ForEach, Spatial.Within*, Collection search, series accessors, Circle polygon ...; binary: Contains/Within/Intersects/Distance x argument objects) x 14 shared objects of all kinds (with and without geometry / child index, a Circle, a moved polygon), thorough adds the larger alphabet and 3-thread scenarios; for each scenario every schedule with <= k preemptions, k = 0, 1 always and 2 (thorough 3) when the product of the two calls' scheduling-point counts is within the budget (scheduling points at every instrumented function entry / loop iteration / sync operation); each call's result compared with its solo result; then every scenario free-running under the race detector; non-trivial = schedule with at least one preemption"
+	r.Rule = "scenarios = every pair of colliding calls (same receiver, receiver of one is the argument of the other, shared argument) out of the call alphabet (unary: JSON, Rect, ForEach, Spatial.Within*, Collection search, series accessors, Circle polygon ...; binary: Contains/Within/Intersects/Distance x argument objects) x 14 shared objects of all kinds (with and without geometry / child index, a Circle, a moved polygon), thorough adds the larger alphabet and 3-thread scenarios; for each scenario every schedule with <= k preemptions, k = 0, 1 always and 2 (thorough 3) when the product of the two calls' scheduling-point counts is within the budget (scheduling points at every instrumented function entry / loop iteration / sync operation); each call's result compared with its solo result; then every scenario free-running under the race detector, followed by a storm of 16 goroutines over 1,280 distinct fresh objects (1,024 circles, 256 indexed lines) whose answers must be the run-alone ones; non-trivial = schedule with at least one preemption"
 	r.Assume = []string{"interleaving granularity: instrumented program points (word-level reorderings are left to the race detector pass)", "third-party dependencies are not instrumented"}
 	scratch, bin, err := instrBuild(r)
 	if scratch != "" {
@@ -301,6 +301,7 @@ func runC16(r *rt.Run) {
 			}
 		}
 		what := "race detector / crash: " + err.Error()
+		class := "data-race"
 		if i := strings.Index(so, "WARNING: DATA RACE"); i >= 0 {
 			end := i + 1500
 			if end > len(so) {
@@ -309,8 +310,9 @@ func runC16(r *rt.Run) {
 			what = so[i:end]
 		} else if i := strings.Index(so, "MISMATCH"); i >= 0 {
 			what = so[i:min(len(so), i+400)]
+			class = "free-running-result-differs"
 		}
-		r.Fail("data-race", func() (rt.Case, string, string) {
+		r.Fail(class, func() (rt.Case, string, string) {
 			return rt.Case{Kind: "schedule", Op: "race", Ops: strings.Split(last, " || ")}, "no data race and solo results under free-running goroutines", what
 		})
 	}
